@@ -471,6 +471,7 @@ type pktWire struct {
 	TopicHex   string `json:"topic_hex,omitempty"`
 	ClientHex  string `json:"cid_hex,omitempty"`
 	AMethodHex string `json:"amethod_hex,omitempty"`
+	RawEmpty   bool   `json:"raw_empty,omitempty"` // Raw is the empty datagram (non-nil, zero length): survives the round trip
 }
 
 func (p Pkt) MarshalJSON() ([]byte, error) {
@@ -484,6 +485,7 @@ func (p Pkt) MarshalJSON() ([]byte, error) {
 	if !utf8.ValidString(p.AuthMethod) {
 		w.AMethodHex, w.pktJSON.AuthMethod = hex.EncodeToString([]byte(p.AuthMethod)), ""
 	}
+	w.RawEmpty = p.Raw != nil && len(p.Raw) == 0
 	return json.Marshal(w)
 }
 
@@ -504,6 +506,9 @@ func (p *Pkt) UnmarshalJSON(b []byte) error {
 	if w.AMethodHex != "" {
 		d, _ := hex.DecodeString(w.AMethodHex)
 		p.AuthMethod = string(d)
+	}
+	if w.RawEmpty {
+		p.Raw = []byte{}
 	}
 	return nil
 }
